@@ -129,6 +129,29 @@ Definition mdefault_ok (m : mdefault) : bool :=
   | UEscapes => Nat.ltb 0 (m_calls m) && Nat.eqb (m_calls m) (m_explicit m)
   end.
 
+(* order sensitivity: the iteration order of a set of str / bytes / datetime depends on the hash salt of the process
+   (PYTHONHASHSEED, random by default).  A site is a place where a set's iteration order flows into something ordered:
+   for-loop or list/dict comprehension over a set, list(s), tuple(s), x.extend(s), sep.join(s), np.array(s), s.pop(),
+   unpacking, lst += s.  (sorted(s), len, membership, set algebra are order-free and are not sites.) *)
+Record osite := { o_file : string; o_func : string; o_kind : string; o_text : string }.
+
+(* allow-list, each justified by reading the code:
+   - DailyModel._components: components = list(set([...])) is followed at once by
+     components = sorted(components, key=lambda x: (len(x), x)), a total order on distinct strings;
+   - _get_dst_indices: missing_hour.pop() is guarded by `if len(missing_hour) != 1: raise`, and the elements are ints
+     (int hashes are not salted) *)
+Definition osite_ok (o : osite) : bool :=
+  (String.eqb (o_file o) "opendsm/eemeter/models/daily/model.py" && String.eqb (o_func o) "DailyModel._components" &&
+   String.eqb (o_kind o) "call" && String.eqb (o_text o) "list(set([i for item in self.combinations for i in item.split('__')]))") ||
+  (String.eqb (o_file o) "opendsm/eemeter/models/hourly/model.py" && String.eqb (o_func o) "_get_dst_indices" &&
+   String.eqb (o_kind o) "pop" && String.eqb (o_text o) "missing_hour.pop()").
+
+(* as coded, one site is neither (known finding C03-K2): CalTRACKSegmentModel.predict orders the columns of its dot product by
+   list(set(parameters.keys()).intersection(set(design_matrix_granular.keys()))), a set of strings *)
+Definition osite_known (o : osite) : bool :=
+  String.eqb (o_file o) "opendsm/eemeter/models/hourly_caltrack/segmentation.py" &&
+  String.eqb (o_func o) "CalTRACKSegmentModel.predict" && String.eqb (o_kind o) "call".
+
 (* writes to state shared by the whole process.  Why it matters beyond the running process: the numba functions are
    compiled with cache=True and a module-level value read inside them is frozen into the compiled code AND into the
    on-disk JIT cache, so a fit that assigned such a value would decide the results of later processes *)
